@@ -1278,6 +1278,17 @@ type compileCase struct {
 	// flags (0 = derived from long/eq/attached as above; 1 "-f v", 2 "-fv",
 	// 3 "-f=v", 4 "--file v", 5 "--file=v")
 	fileSpell, flagSpell int
+	// inName: name of the DSL file on disk and on the command line ("" =
+	// in.dsl): names that are also glob patterns, next to a file the pattern
+	// matches; names with blanks and leading dashes
+	inName string
+}
+
+func (cc *compileCase) in() string {
+	if cc.inName != "" {
+		return cc.inName
+	}
+	return "in.dsl"
 }
 
 func spellFlag(short, long, value string, mode int) []string {
@@ -1330,11 +1341,11 @@ func (cc *compileCase) argv() []string {
 	}
 	var file []string
 	if cc.fileSpell > 0 {
-		file = spellFlag("-f", "--file", "in.dsl", cc.fileSpell)
+		file = spellFlag("-f", "--file", cc.in(), cc.fileSpell)
 	} else if cc.long {
-		file = flag("--file", "in.dsl")
+		file = flag("--file", cc.in())
 	} else {
-		file = flag("-f", "in.dsl")
+		file = flag("-f", cc.in())
 	}
 	if !cc.fileLast {
 		argv = append(argv, file...)
@@ -1553,7 +1564,26 @@ func c16Compile(c *Ctx, pool *Pool, i int, thorough bool) error {
 		case 1:
 			staleAge = 7200
 		}
-		disk := []DiskEntry{{Path: "in.dsl", Kind: "file", Data: []byte(text), AgeSec: dslAge}}
+		// the DSL under a name that is also a glob pattern, next to a file the
+		// pattern matches (another, valid protocol); a name with a blank
+		var inSiblings []DiskEntry
+		if ir := NewRng(SubSeed(seed, "inname", len(ts)*7+len(cc.dirs))); !cc.fifoIn && ir.Chance(1, 5) {
+			other := []byte("root packet MatchedByThePattern {\n    u8 a `x`,\n    u16 b `y`,\n}\n")
+			switch ir.Intn(3) {
+			case 0:
+				cc.inName = "v[1].dsl"
+				inSiblings = []DiskEntry{{Path: "v1.dsl", Kind: "file", Data: other}}
+			case 1:
+				cc.inName = "what?*.dsl"
+				inSiblings = []DiskEntry{{Path: "whats-up.dsl", Kind: "file", Data: other}, {Path: "what?*.dsl.dsl", Kind: "file", Data: other}}
+			default:
+				cc.inName = "my proto {a,b}.dsl"
+				inSiblings = []DiskEntry{{Path: "my proto a.dsl", Kind: "file", Data: other}}
+			}
+			c.ev.Fire("input_name_is_a_glob_pattern_with_matching_sibling", 1)
+		}
+		disk := []DiskEntry{{Path: cc.in(), Kind: "file", Data: []byte(text), AgeSec: dslAge}}
+		disk = append(disk, inSiblings...)
 		if cc.fifoIn {
 			disk[0] = DiskEntry{Path: "in.dsl", Kind: "fifo", Data: []byte(text)}
 			c.ev.Fire("input_through_named_pipe", 1)
@@ -1854,7 +1884,7 @@ func (c *Ctx) candidate16Compile(caseIdx int, prog *Prog, cc *compileCase, disk 
 	mkDisk := func(p *Prog, keepStale bool) []DiskEntry {
 		var d []DiskEntry
 		for _, e := range disk {
-			if e.Path == "in.dsl" {
+			if e.Path == cc.in() {
 				e.Data = []byte(p.Render())
 			} else if !keepStale && e.Stale {
 				continue
